@@ -4,6 +4,8 @@ package main
 // C17 (names) shares the plugin-string generators.
 
 import (
+	"bytes"
+	"errors"
 	"fmt"
 	"strings"
 
@@ -33,7 +35,11 @@ func b32polymod(values []byte) uint32 {
 }
 
 // craft builds hrp1<symbols><checksum> from raw 5-bit symbols (any padding).
-func craft(hrp string, syms []byte, upper bool) string {
+func craft(hrp string, syms []byte, upper bool) string { return craftConst(hrp, syms, upper, 1) }
+
+// craftConst: a Bech32-shaped string whose checksum makes the polymod equal to [final] (1 = BIP 173;
+// 0x2bc830a3 = Bech32m; anything else = no standard at all)
+func craftConst(hrp string, syms []byte, upper bool, final uint32) string {
 	h := strings.ToLower(hrp)
 	var vals []byte
 	for i := 0; i < len(h); i++ {
@@ -44,7 +50,7 @@ func craft(hrp string, syms []byte, upper bool) string {
 		vals = append(vals, h[i]&31)
 	}
 	vals = append(vals, syms...)
-	mod := b32polymod(append(append([]byte{}, vals...), 0, 0, 0, 0, 0, 0)) ^ 1
+	mod := b32polymod(append(append([]byte{}, vals...), 0, 0, 0, 0, 0, 0)) ^ final
 	out := h + "1"
 	for _, s := range syms {
 		out += string(b32charset[s])
@@ -143,6 +149,9 @@ func (c *Ctx) c09Keys(identity bool) {
 		if kidx == 0 {
 			key = make([]byte, 32) // the all-zero key: data part "qqqq..."
 		}
+		if kidx == 1 {
+			key = bytes.Repeat([]byte{0xff}, 32) // every bit set (the top bit of a Curve25519 point included)
+		}
 		var s string
 		if identity {
 			s, _ = bech32.Encode("AGE-SECRET-KEY-", key)
@@ -206,6 +215,14 @@ func (c *Ctx) c09Keys(identity bool) {
 			if t[pos] != s[pos] {
 				c.c09Native("case-one", string(t), identity, true)
 			}
+		}
+		// the same payload under a checksum of another flavour (Bech32m's constant, 0, 2, all ones)
+		for _, fc := range []uint32{0x2bc830a3, 0, 2, 0x3fffffff} {
+			hrpN := "age"
+			if identity {
+				hrpN = "AGE-SECRET-KEY-"
+			}
+			c.c09Native("other-checksum-constant", craftConst(hrpN, toSyms(key), identity, fc), identity, true)
 		}
 		// the part before / after the separator in the other case
 		if sepi := strings.LastIndexByte(s, '1'); sepi > 0 {
@@ -476,6 +493,19 @@ func (c *Ctx) c09Raw() {
 		model := normErr(c.model.Call("b32decode", hxs(s)))
 		in := map[string]string{"string": s}
 		c.Compare("bech32.Decode~Bech32.decode", in, impl, model)
+		// one spelling per (prefix, payload): what Decode accepts is what encoding its result gives back
+		// (for prefixes with a letter: a letter-free prefix with upper-case data is the documented exception, 9.3)
+		if hrp, data, err := func() (h string, d []byte, e error) {
+			defer func() {
+				if recover() != nil {
+					e = errors.New("panic")
+				}
+			}()
+			return bech32.Decode(s)
+		}(); err == nil && strings.ToLower(hrp) != strings.ToUpper(hrp) {
+			canon := craft(hrp, toSyms(data), strings.ToUpper(s) == s)
+			c.Oracle("accepted-string-is-canonical", canon == s, "bech32-noncanonical-accepted", in, "bech32.Decode accepted a string that is not the encoding of what it decoded to ("+canon+")")
+		}
 		c.Oracle("no-panic", impl != "(:panic)", "parse-panic", in, "bech32.Decode panicked")
 		c.Oracle("non-ascii-rejected", isPrintableASCII(s) || impl == "(:err)", "non-ascii-accepted", in, "a string with bytes outside printable ASCII was accepted")
 		c.note("raw:"+s, true)
